@@ -102,6 +102,7 @@ struct ThreadCtx {
     uint64_t last_lock_seq = 0;           // global sequence number of this thread's latest mutex acquisition (taken inside the critical section)
     int64_t max_timed_request_ns = 0;     // longest time-out a timed lock operation was asked to wait for (harness clears it)
     int64_t last_timed_request_ns = 0;    // the time-out of the timed lock operation in progress
+    uint64_t forced_cv_timeouts = 0;      // serial engine: timed condition waits of this thread that ended only because nothing else could run
     int64_t timed_out_total_ns = 0;       // sum of the time-outs of the timed lock operations that gave up (each waited its full time-out)
     std::vector<const void*> block_objs;  // mutexes / condvars this thread performed an untimed blocking wait on (harness clears it)
     // fault injection (per thread): the k-th call of maybe_throw() at an enabled site throws
@@ -129,6 +130,7 @@ struct SThread {
     int st = NOTSTARTED;
     const void* obj = nullptr;
     bool timed = false, timedout = false, notified = false;
+    bool forced_timeout = false;  // the time-out was fired because nothing else could run (not by the 4 % dice)
     long prio = 0;
     uint64_t own_steps = 0;
     uint64_t spin = 0;  // consecutive yields without other progress
@@ -339,6 +341,7 @@ inline int serial_choose(int me, bool exclude_me)
     if (nt > 0 && (nc == 0 || (splitmix(rt.srng) % 100) < rt.timeout_pct)) {
         int v = timed[splitmix(rt.srng) % nt];
         rt.sth[v].timedout = true;
+        rt.sth[v].forced_timeout = (nc == 0);
         rt.sth[v].st = SThread::RUN;
         rt.timeouts_fired = true;
         cand[nc++] = v;
@@ -1221,6 +1224,19 @@ VRF_SL_SPEC(verif_shared_timed_mutex)
 namespace std {
 class verif_condition_variable {
     std::condition_variable cv_;
+    // all threads waiting on a condition variable at the same time must use the same mutex (precondition of the standard)
+    std::atomic<const void*> wait_mutex_{nullptr};
+    std::atomic<int> waiters_{0};
+    struct WaitScope {
+        verif_condition_variable& cv;
+        WaitScope(verif_condition_variable& c, const void* m): cv(c)
+        {
+            if (cv.waiters_.fetch_add(1, std::memory_order_relaxed) == 0) cv.wait_mutex_.store(m, std::memory_order_relaxed);
+            else if (cv.wait_mutex_.load(std::memory_order_relaxed) != m)
+                vrf::raise_violation("oracle:condition_variable_waited_on_with_two_different_mutexes", "{}");
+        }
+        ~WaitScope() { cv.waiters_.fetch_sub(1, std::memory_order_relaxed); }
+    };
     // serial engine: waiters are identified by obj == this in the scheduler table
 
     // returns false on time-out. deadline_ns < 0: untimed
@@ -1229,6 +1245,7 @@ class verif_condition_variable {
         using namespace vrf;
         ThreadCtx& c = ctx();
         verif_mutex* m = lk.mutex();
+        WaitScope ws(*this, m);
         c.st.cv_waits++;
         if (deadline_ns < 0) {
             c.st.block_waits++;
@@ -1256,6 +1273,8 @@ class verif_condition_variable {
                 if (t.timedout) {
                     t.timedout = false;
                     timedout = true;
+                    if (t.forced_timeout) c.forced_cv_timeouts++;
+                    t.forced_timeout = false;
                 }
             }
             m->vrf_serial_relock();
